@@ -231,6 +231,20 @@ def run(ctx):
         rx = W.all_reactions(("A", "B", "C"), (0, 1, 2))
         for _ in range(250):
             check_network(ctx, [rng.choice(rx), rng.choice(rx)], tag="sample 3sp,2rxn,coeff0-2")
+    # amplifying chains: source -> X0, a X0 -> b X1, ..., Xk -> sink with multi-digit yields; the positive steady flux
+    # exists and spans several orders of magnitude with non-dyadic ratios (1/3, 1/7 ...)
+    for t in range(12 if ctx.quick else 150):
+        k = rng.randint(2, 3)
+        names = [f"X{j}" for j in range(k + 1)]
+        net = [W.rxn({}, {names[0]: 1})]
+        for j in range(k):
+            net.append(W.rxn({names[j]: rng.choice([1, 3, 3, 7, 9])}, {names[j + 1]: rng.choice([10, 100, 100, 1000, 30, 700])}))
+        if rng.random() < 0.8:
+            net.append(W.rxn({names[-1]: 1}, {}))       # with the sink the network is consistent
+        if rng.random() < 0.3:
+            rng.shuffle(net)
+        ctx.count("amplifying_chain_networks")
+        check_network(ctx, net, tag="amplifying chains (multi-digit yields)")
     n = 250 if ctx.quick else 5000
     for i in range(n):
         if ctx.out_of_time():
